@@ -301,6 +301,68 @@ func eachCase(c *fw.Ctx, which map[string]bool, f func(sc streamCase)) {
 			single("pathfaults", f.label, f.text)
 		}
 	}
+	// schema rules: every example value x every set of 1..2 (thorough 3) rules from an alphabet that
+	// holds each rule the catalog builder reads (type, or, enum, allOf, additionalProperties) in every
+	// form its value can take - valid, empty, of the wrong shape - plus the ordinary rules, in every
+	// schema position (root of a type, property, array item, request / response body, query, path,
+	// headers, JSON-RPC params). The schema library judges the rules; whatever it lets through
+	// reaches the catalog builder.
+	if on("schema-rules") {
+		examples := []string{`""`, `"a"`, `1`, `1.5`, `true`, `null`, `{}`, `[]`, `@st`, `{"k": 1}`, `[1]`}
+		rules := []string{
+			`type: "string"`, `type: "integer"`, `type: "@st"`, `type: ""`, `type: "mixed"`, `type: "any"`, `type: "@"`,
+			`or: ["string", "integer"]`, `or: ["@st", "string"]`, `or: [{type: "integer"}, {maxLength: 2}]`, `or: [{maxLength: 2}, {type: "@st"}]`,
+			`or: [{min: 1}, "@st"]`, `or: [{}, {}]`, `or: []`, `or: ["", "string"]`, `or: "string"`,
+			`enum: ["a", 1]`, `enum: @se`, `enum: []`, `enum: [""]`,
+			`allOf: "@st"`, `allOf: ["@st", "@so"]`, `allOf: ""`, `allOf: []`, `allOf: [""]`,
+			`additionalProperties: true`, `additionalProperties: "@st"`, `additionalProperties: "string"`, `additionalProperties: ""`, `additionalProperties: "any"`,
+			`optional: true`, `nullable: true`, `const: true`, `min: 0`, `minLength: 0`, `regex: "a"`, `precision: 1`, `minItems: 0`, `exclusiveMinimum: true`, `serializeFormat: "x"`,
+		}
+		hosts := []func(v string) string{
+			func(v string) string { return "TYPE @x\n  " + v + "\n" },
+			func(v string) string { return "TYPE @x\n  {\n    \"p\": " + v + "\n  }\n" },
+			func(v string) string { return "TYPE @x\n  [\n    " + v + "\n  ]\n" },
+			func(v string) string { return "POST /h\n  Request\n    " + v + "\n  200\n    " + v + "\n" },
+			func(v string) string { return "GET /h\n  Query\n    {\n      \"q\": " + v + "\n    }\n  200 any\n" },
+			func(v string) string { return "GET /h/{p}\n  Path\n    {\n      \"p\": " + v + "\n    }\n  200 any\n" },
+			func(v string) string {
+				return "GET /h\n  200\n    Headers\n      {\n        \"H\": " + v + "\n      }\n    Body any\n"
+			},
+			func(v string) string {
+				return "URL /r\n  Protocol json-rpc-2.0\n  Method m\n    Params\n      " + v + "\n    Result\n      {\n        \"r\": " + v + "\n      }\n"
+			},
+		}
+		tail := "TYPE @st\n  {\"tk\": 1}\nTYPE @so\n  {\"ok\": 2}\nENUM @se\n  [\"a\", 1]\n"
+		maxSet := 2
+		if !c.Quick() {
+			maxSet = 3
+		}
+		var set []int
+		var rec func(from int)
+		rec = func(from int) {
+			if len(set) > 0 {
+				var rr []string
+				for _, i := range set {
+					rr = append(rr, rules[i])
+				}
+				note := " // {" + strings.Join(rr, ", ") + "}"
+				for ei, e := range examples {
+					for hi, h := range hosts {
+						single("schema-rules", fmt.Sprintf("host=%d example=%d rules=%v", hi, ei, set), "JSIGHT 0.3\n"+h(e+note)+tail)
+					}
+				}
+			}
+			if len(set) == maxSet {
+				return
+			}
+			for i := from; i < len(rules); i++ {
+				set = append(set, i)
+				rec(i + 1)
+				set = set[:len(set)-1]
+			}
+		}
+		rec(0)
+	}
 	// paste graphs
 	if on("paste") {
 		maxN := 3
